@@ -32,7 +32,13 @@ pub fn miri_cfg(id: &str, tier: Tier) -> Option<MiriCfg> {
             cases_per_proc: 24,
             extra_flags: threaded,
         }),
-        ("C06" | "C07" | "C10" | "C11" | "C12" | "C16" | "C18", Tier::Thorough) => Some(MiriCfg {
+        ("C12", Tier::Thorough) => Some(MiriCfg {
+            lane: "miri",
+            procs: 16,
+            cases_per_proc: 40,
+            extra_flags: "",
+        }),
+        ("C06" | "C07" | "C10" | "C11" | "C16" | "C18", Tier::Thorough) => Some(MiriCfg {
             lane: "miri",
             procs: 16,
             cases_per_proc: 120,
